@@ -30,6 +30,10 @@ var c15Fillers = []struct{ name, text string }{
 	{"block-comment-mentioning-an-opener", " --( see --( here )-- "}, {"block-comment-of-dashes-and-parentheses", " --(-- ( ) - -- )-- "},
 	{"empty-block-comment", " --()-- "}, {"line-comment-mentioning-block-syntax", " -- --( not a block )-- \n"},
 	// comment text that is not valid UTF-8 (a Latin-1 source file) is comment text all the same
+	// a line comment is a comment whatever its text begins with, directly after the dashes
+	{"line-comment-text-starts-with-tab", " --\tnote 'q' = r\n"}, {"line-comment-text-starts-with-form-feed", " --\fsee digit\n"}, {"line-comment-text-starts-with-vertical-tab", " --\vany\n"},
+	{"line-comment-text-glued-to-the-dashes", " --find all 'x'\n"}, {"line-comment-text-starts-with-a-quote", " --'unclosed\n"}, {"line-comment-of-dashes", " -----\n"},
+	{"line-comment-text-starts-with-nel-or-nbsp", " --\u0085x\n --\u00a0y\n"},
 	{"line-comment-with-latin1-bytes", " -- caf\xe9 na\xefve \xff\n"}, {"block-comment-with-latin1-bytes", " --( caf\xe9 \xfe\xff \xc3 )-- "},
 }
 
